@@ -1,6 +1,7 @@
 package main
 
 import (
+	"strconv"
 	"fmt"
 	"go/ast"
 	"go/token"
@@ -273,38 +274,112 @@ func runC38(c *Ctx) {
 
 func runC40(c *Ctx) {
 	pp := c.Func("spec/tun", "", "Pipe")
-	pi := c.Func("spec/tun", "", "pipe")
-	// Pipe
+	// Pipe starts, with go, one closer (the literal that waits for the group) and the
+	// workers: whatever else it starts - a declared function, a local closure, a literal.
 	adds := methodCalls(pp, false, "Add")
 	var goPipes []*ast.CallExpr
 	var closer *ast.FuncLit
+	var pi *Fn
+	sameWorker := true
 	ast.Inspect(pp.Body, func(n ast.Node) bool {
-		if gs, ok := n.(*ast.GoStmt); ok {
-			if pp.IsCall(gs.Call, "spec/tun.pipe") {
-				goPipes = append(goPipes, gs.Call)
-			}
-			if l, ok := gs.Call.Fun.(*ast.FuncLit); ok {
-				closer = l
-			}
+		gs, ok := n.(*ast.GoStmt)
+		if !ok || pp.enclosing(gs) != pp {
+			return true
 		}
+		var w *Fn
+		if l, ok := ast.Unparen(gs.Call.Fun).(*ast.FuncLit); ok {
+			if len(methodCalls(pp.Closure(l), false, "Wait")) > 0 {
+				closer = l
+				return true
+			}
+			w = pp.Closure(l)
+		} else if l := pp.litOfCallee(gs.Call); l != nil {
+			w = pp.Closure(l)
+		} else {
+			w = pp.FnOfCallee(gs.Call)
+		}
+		if w == nil {
+			c.Failf("Pipe: the function started at %s is not resolved (undecided)", c.pos(gs.Pos()))
+		}
+		if pi != nil && pi != w {
+			sameWorker = false
+		}
+		pi = w
+		goPipes = append(goPipes, gs.Call)
 		return true
 	})
+	if pi == nil {
+		c.Failf("Pipe: no copy worker is started (undecided)")
+	}
+	c.nfuncs[pi] = true
 	nadd := ""
 	if len(adds) == 1 {
 		nadd, _ = pp.ConstVal(adds[0].Args[0])
 	}
-	c.Ob("pipe", "Pipe#wg.Add-matches-goroutines", pp.Decl.Pos(), nadd == fmt.Sprint(len(goPipes)) && len(goPipes) == 2, fmt.Sprintf("wg.Add(%s) for %d pipe goroutines", nadd, len(goPipes)))
+	c.Ob("pipe", "Pipe#wg.Add-matches-goroutines", pp.Decl.Pos(), nadd == fmt.Sprint(len(goPipes)) && len(goPipes) == 2 && sameWorker, fmt.Sprintf("wg.Add(%s) for %d pipe goroutines", nadd, len(goPipes)))
+	// which of the worker's parameters are the two streams: those the two starts hand
+	// Pipe's own two ends to
+	var streamIdx []int
 	if len(goPipes) == 2 {
 		a, b := goPipes[0], goPipes[1]
-		mirror := pp.Prov(a.Args[2]) == pp.Prov(b.Args[3]) && pp.Prov(a.Args[3]) == pp.Prov(b.Args[2]) && pp.Prov(a.Args[2]) != pp.Prov(a.Args[3])
+		for i := range a.Args {
+			if pv := pp.Prov(a.Args[i]); pv == "param#0" || pv == "param#1" {
+				streamIdx = append(streamIdx, i)
+			}
+		}
+		mirror := len(streamIdx) == 2 && len(a.Args) == len(b.Args)
+		if mirror {
+			x, y := streamIdx[0], streamIdx[1]
+			mirror = pp.Prov(a.Args[x]) == pp.Prov(b.Args[y]) && pp.Prov(a.Args[y]) == pp.Prov(b.Args[x]) && pp.Prov(a.Args[x]) != pp.Prov(a.Args[y])
+		}
 		c.Ob("pipe", "Pipe#two-directions", a.Pos(), mirror, "the two goroutines copy in opposite directions between the same two ends")
+	}
+	// paramOf: the position among the worker's parameters that e holds, or -1
+	paramOf := func(g *Fn, e ast.Expr) int {
+		pv := g.Prov(e)
+		pv = strings.TrimPrefix(pv, "lit.")
+		if !strings.HasPrefix(pv, "param#") {
+			return -1
+		}
+		n, err := strconv.Atoi(strings.TrimPrefix(pv, "param#"))
+		if err != nil {
+			return -1
+		}
+		return n
+	}
+	isStream := func(g *Fn, e ast.Expr) bool {
+		k := paramOf(g, e)
+		return len(streamIdx) == 2 && k >= 0 && (k == streamIdx[0] || k == streamIdx[1])
+	}
+	// sharedWith: e, inside the worker, is the object Pipe's expression pe denotes - the
+	// captured variable itself, or the parameter the starts pass it to
+	sharedWith := func(g *Fn, e ast.Expr, pe ast.Expr) bool {
+		pv := pp.varOf(stripAddr(pe))
+		if pv == nil {
+			return false
+		}
+		if v := g.varOf(stripAddr(e)); v != nil && v == pv {
+			return true
+		}
+		k := paramOf(g, e)
+		if k < 0 {
+			return false
+		}
+		for _, gc := range goPipes {
+			if k >= len(gc.Args) || pp.varOf(stripAddr(gc.Args[k])) != pv {
+				return false
+			}
+		}
+		return true
 	}
 	capOK := false
 	ast.Inspect(pp.Body, func(n ast.Node) bool {
 		if call, ok := n.(*ast.CallExpr); ok {
 			if id, ok := call.Fun.(*ast.Ident); ok && id.Name == "make" && len(call.Args) == 2 {
-				v, _ := pp.ConstVal(call.Args[1])
-				capOK = v == fmt.Sprint(len(goPipes))
+				if _, isChan := typeOf(pp.Info, call).Underlying().(*types.Chan); isChan {
+					v, _ := pp.ConstVal(call.Args[1])
+					capOK = v == fmt.Sprint(len(goPipes))
+				}
 			}
 		}
 		return true
@@ -329,15 +404,17 @@ func runC40(c *Ctx) {
 		}
 	}
 	c.Ob("pipe", "Pipe#close-after-wait", pp.Decl.Pos(), okClose, "the error channel is closed only after both directions finished")
-	// pipe
-	cp := pi.CallsTo(false, "io.CopyBuffer")
-	closes := methodCalls(pi, false, "Close")
+	// the worker
+	wpos := pi.Body.Pos()
+	cp := pi.CallsTo(true, "io.CopyBuffer")
+	closes := methodCalls(pi, true, "Close")
 	okBoth := len(cp) == 1 && len(closes) == 2
 	if okBoth {
 		// both closes on every path from the copy to an exit
 		// (the copy and the closes may sit together in an invoked literal - an inlined
 		// "copy then close" helper: the paths are then those of the literal)
 		cg := pi.enclosing(cp[0])
+		okBoth = cg == pi || cg.Lit != nil && invokedInPlace(pi, cg.Lit)
 		for _, cl := range closes {
 			if pi.enclosing(cl) != cg {
 				okBoth = false
@@ -348,36 +425,68 @@ func runC40(c *Ctx) {
 				okBoth = false
 			}
 		}
-		recv := map[string]bool{}
+		recv := map[int]bool{}
 		for _, cl := range closes {
-			recv[pi.enclosing(cl).Prov(cl.Fun.(*ast.SelectorExpr).X)] = true
+			g := pi.enclosing(cl)
+			if isStream(g, cl.Fun.(*ast.SelectorExpr).X) {
+				recv[paramOf(g, cl.Fun.(*ast.SelectorExpr).X)] = true
+			}
 		}
-		okBoth = okBoth && recv["param#2"] && recv["param#3"]
+		okBoth = okBoth && len(recv) == 2
 	}
-	c.Ob("pipe", "pipe#copy-delegated-to-io.CopyBuffer", pi.Decl.Pos(), len(cp) == 1, "the byte transfer itself is io.CopyBuffer (trusted: it forwards the bytes of a Read that also returned an error, handles short writes, returns at EOF); a hand-written copy loop is not decided by this check and is reported")
-	c.Ob("pipe", "pipe#both-ends-closed-after-copy", pi.Decl.Pos(), okBoth, "after the copy returns both ends are closed on every path")
+	c.Ob("pipe", "pipe#copy-delegated-to-io.CopyBuffer", wpos, len(cp) == 1, "the byte transfer itself is io.CopyBuffer (trusted: it forwards the bytes of a Read that also returned an error, handles short writes, returns at EOF); a hand-written copy loop is not decided by this check and is reported")
+	c.Ob("pipe", "pipe#both-ends-closed-after-copy", wpos, okBoth, "after the copy returns both ends are closed on every path")
 	okDone := false
-	if len(pi.Body.List) > 0 {
+	if len(pi.Body.List) > 0 && len(adds) == 1 {
 		if d, ok := pi.Body.List[0].(*ast.DeferStmt); ok {
-			if se, ok := d.Call.Fun.(*ast.SelectorExpr); ok && se.Sel.Name == "Done" && pi.Prov(se.X) == "param#0" {
+			if se, ok := d.Call.Fun.(*ast.SelectorExpr); ok && se.Sel.Name == "Done" && sharedWith(pi, se.X, adds[0].Fun.(*ast.SelectorExpr).X) {
 				okDone = true
 			}
 		}
 	}
-	c.Ob("pipe", "pipe#wg.Done-deferred-first", pi.Decl.Pos(), okDone, "wg.Done is deferred first, so it runs on every exit")
+	c.Ob("pipe", "pipe#wg.Done-deferred-first", wpos, okDone, "wg.Done is deferred first, so it runs on every exit")
+	var errChan ast.Expr
+	for _, r := range pp.Returns() {
+		if len(r.Results) == 1 {
+			errChan = r.Results[0]
+		}
+	}
 	ast.Inspect(pi.Body, func(n ast.Node) bool {
 		if s, ok := n.(*ast.SendStmt); ok {
-			okErr := pi.FactsAt(s).Cmp(func(e, tag ast.Expr, truth bool, fa *Fact) bool {
+			g := pi.enclosing(s)
+			okErr := g.FactsAt(s).Cmp(func(e, tag ast.Expr, truth bool, fa *Fact) bool {
 				be, ok := e.(*ast.BinaryExpr)
 				return ok && truth && be.Op == token.NEQ && isNilIdent(pi.Info, be.Y)
 			})
-			c.Ob("pipe", "pipe#only-errors-are-sent", s.Pos(), okErr && pi.Prov(s.Chan) == "param#1", "only a non-nil copy error is reported")
+			c.Ob("pipe", "pipe#only-errors-are-sent", s.Pos(), okErr && errChan != nil && sharedWith(g, s.Chan, errChan), "only a non-nil copy error is reported")
 		}
 		return true
 	})
 	if len(cp) == 1 {
-		c.Ob("pipe", "pipe#copies-between-its-ends", cp[0].Pos(), pi.Prov(cp[0].Args[0]) == "param#3" && pi.Prov(cp[0].Args[1]) == "param#2" || pi.Prov(cp[0].Args[0]) == "param#2" && pi.Prov(cp[0].Args[1]) == "param#3", "the copy runs between the two ends given")
+		g := pi.enclosing(cp[0])
+		c.Ob("pipe", "pipe#copies-between-its-ends", cp[0].Pos(), isStream(g, cp[0].Args[0]) && isStream(g, cp[0].Args[1]) && paramOf(g, cp[0].Args[0]) != paramOf(g, cp[0].Args[1]), "the copy runs between the two ends given")
 	}
+}
+
+// stripAddr removes a leading & (and parentheses): &wg and wg name the same object.
+func stripAddr(e ast.Expr) ast.Expr {
+	e = ast.Unparen(e)
+	if u, ok := e.(*ast.UnaryExpr); ok && u.Op == token.AND {
+		return ast.Unparen(u.X)
+	}
+	return e
+}
+
+// invokedInPlace: lit is called exactly where it is written (an inlined helper), inside f.
+func invokedInPlace(f *Fn, lit *ast.FuncLit) bool {
+	found := false
+	ast.Inspect(f.Body, func(n ast.Node) bool {
+		if call, ok := n.(*ast.CallExpr); ok && ast.Unparen(call.Fun) == ast.Expr(lit) {
+			found = true
+		}
+		return !found
+	})
+	return found
 }
 
 // ---------------------------------------------------------------------------------------
@@ -500,9 +609,11 @@ func runC42(c *Ctx) {
 			}
 			ninv++
 			fs := fn.FactsAt(gs)
+			// the lookup's found flag (whatever it is called) is known true: a boolean local
+			// every definition of which is the second result of a handler-map Load
+			isFoundFlag := func(e ast.Expr) bool { return handlerFoundFlag(fn, e, 0) }
 			okFound := fs.Cmp(func(e, tag ast.Expr, truth bool, fa *Fact) bool {
-				id, ok := e.(*ast.Ident)
-				return ok && id.Name == "ok" && truth
+				return tag == nil && truth && isFoundFlag(e)
 			})
 			c.Ob("unhandled", name+"#handler-runs-only-when-found", gs.Pos(), okFound, "a handler is started only when the lookup found one")
 			okArg := len(gs.Call.Args) == 1 && fn.varOf(gs.Call.Args[0]) != nil
@@ -516,13 +627,87 @@ func runC42(c *Ctx) {
 		for _, cl := range methodCalls(fn, false, "Close") {
 			fs := fn.FactsAt(cl)
 			okMiss := fs.Cmp(func(e, tag ast.Expr, truth bool, fa *Fact) bool {
-				id, ok := e.(*ast.Ident)
-				return ok && id.Name == "ok" && !truth
+				return tag == nil && !truth && handlerFoundFlag(fn, e, 0)
 			})
 			c.Ob("unhandled", name+"#unhandled-stream-closed", cl.Pos(), okMiss, "a stream with no handler is closed")
 		}
 		c.Ob("unhandled", name+"#closes-stream-on-miss", fn.Decl.Pos(), len(methodCalls(fn, false, "Close")) >= 1, "the dispatcher closes a stream nobody handles (otherwise the peer hangs on an open stream)")
 	}
+}
+
+// handlerFoundFlag: e is a boolean that is true only where a handler-table Load found an
+// entry: a local every definition of which is the second result of such a Load, or of a known
+// literal (an inlined lookup helper) each of whose returns yields a Load's results as they
+// are, a constant false, such a flag, or true where such a flag is known true.
+func handlerFoundFlag(g *Fn, e ast.Expr, depth int) bool {
+	if depth > 3 {
+		return false
+	}
+	g = g.enclosing(e)
+	isLoad := func(h *Fn, x ast.Expr) bool {
+		call, ok := ast.Unparen(x).(*ast.CallExpr)
+		if !ok {
+			return false
+		}
+		se, ok := call.Fun.(*ast.SelectorExpr)
+		return ok && se.Sel.Name == "Load" && strings.Contains(h.Prov(se.X), "Handlers")
+	}
+	v := g.varOf(e)
+	if v == nil || !types.Identical(v.Type(), types.Typ[types.Bool]) {
+		return false
+	}
+	defs := g.defsOf(v)
+	if len(defs) == 0 {
+		return false
+	}
+	for _, d := range defs {
+		if d.rhs == nil || !d.multi || d.idx != 1 {
+			return false
+		}
+		h := g.enclosing(d.rhs)
+		if isLoad(h, d.rhs) {
+			continue
+		}
+		call, ok := ast.Unparen(d.rhs).(*ast.CallExpr)
+		if !ok {
+			return false
+		}
+		lit := h.litOfCallee(call)
+		if lit == nil {
+			return false
+		}
+		lg := h.Closure(lit)
+		rets := lg.Returns()
+		if len(rets) == 0 {
+			return false
+		}
+		for _, r := range rets {
+			switch len(r.Results) {
+			case 1:
+				if !isLoad(lg, r.Results[0]) {
+					return false
+				}
+			case 2:
+				if cv, isConst := lg.ConstVal(r.Results[1]); isConst {
+					if cv == "false" {
+						continue
+					}
+					if !lg.FactsAt(r).Cmp(func(x, tag ast.Expr, truth bool, fa *Fact) bool {
+						return tag == nil && truth && handlerFoundFlag(lg, x, depth+1)
+					}) {
+						return false
+					}
+					continue
+				}
+				if !handlerFoundFlag(lg, r.Results[1], depth+1) {
+					return false
+				}
+			default:
+				return false
+			}
+		}
+	}
+	return true
 }
 
 // ---------------------------------------------------------------------------------------
